@@ -340,7 +340,14 @@ def armour_lines():
         "x SIGNED MESSAGE-----", "-----BEGIN BITCOIN SIGNED MESSAGE-----", "-----END BITCOIN SIGNED MESSAGE-----", "> -----BEGIN SIGNATURE-----",
         "Address: 1BitcoinEaterAddressDontSendf59kuE", "Version: 1", ":", "a: b", " ", "", "\t", "-----END", "-----BEGIN x SIGNATURE-----",
         "-----BEGIN 1 SIGNATURE-----"])
-    return st.one_of(plain, plain, near)
+    # lines that mail / clear-signing / text-processing conventions treat specially: dash-escaping (RFC 2440 7.1), mbox
+    # "From " quoting, quoted-printable, trailing blanks, armour header look-alikes, and the characters other than CR / LF
+    # on which str.splitlines() breaks a line
+    conv = st.sampled_from([
+        "- milk", "- ", "-", "--", "-- ", "- - x", "- -----BEGIN SIGNATURE-----", "-x", " - x", "From me", ">From me", "> quoted", "=20", "=",
+        "x=", ".", "..", "#", "Hash: SHA256", "Comment: x", "Charset: utf-8", "x  ", "x\t", "  x", "\u00a0x", "a\x0bb", "a\x0cb", "a\x1cb",
+        "a\x1db", "a\x1eb", "a\x85b", "a\u2028b", "a\u2029b", "\x0c", "\u2028", "x\u2028", "\ufeffx", "\\", "\\n", "%s", "{}", "\x00", "a\x00b"])
+    return st.one_of(plain, plain, near, conv)
 
 
 def armour_msgs():
